@@ -270,12 +270,27 @@ type C02Rich struct {
 	PS  *string  `json:"ps,string"`
 }
 
+type c02inner struct {
+	IA int
+	IB string `json:"ib"`
+}
+
+// C02Emb embeds a pointer to an unexported struct: encoding/json cannot allocate
+// it, but decodes through it when the caller has set it.
+type C02Emb struct {
+	*c02inner
+	X int
+	*ZPInner
+}
+
 // C02Any is a named empty interface: the library routes it through another
 // decoder than plain `any`.
 type C02Any interface{}
 
 func c02Type(t *tape.Tape) (reflect.Type, string) {
-	switch t.Pick(4, 5, 1, 1, 1) {
+	switch t.Pick(4, 5, 1, 1, 1, 1) {
+	case 5:
+		return reflect.TypeOf(C02Emb{}), "C02Emb"
 	case 0:
 		return reflect.TypeOf(C02Rich{}), "C02Rich"
 	case 1:
@@ -354,6 +369,18 @@ func seedIfacePointers(t *tape.Tape, v reflect.Value, depth int) int {
 func c02State(seg []uint32, rt reflect.Type) (reflect.Value, int) {
 	t := tape.Replay(seg)
 	p := reflect.New(rt)
+	if e, ok := p.Interface().(*C02Emb); ok {
+		// the caller may have set the embedded pointers itself
+		if t.Chance(2, 3) {
+			e.c02inner = &c02inner{IA: t.Intn(100), IB: "preset"}
+			if t.Bool() {
+				e.ZPInner = &ZPInner{C: 1.5}
+			}
+			e.X = t.Intn(10)
+			return p, 1
+		}
+		return p, 0
+	}
 	if t.Chance(2, 3) {
 		(&gen.Values{T: t, C: gen.JSON, MaxMap: 3, MaxLen: 4}).Fill(p.Elem())
 		n := seedIfacePointers(t, p.Elem(), 0)
@@ -390,6 +417,8 @@ func c02TypeByName(name string) reflect.Type {
 	switch name {
 	case "C02Rich":
 		return reflect.TypeOf(C02Rich{})
+	case "C02Emb":
+		return reflect.TypeOf(C02Emb{})
 	case "ZRec":
 		return reflect.TypeOf(ZRec{})
 	case "map[string]any":
@@ -458,7 +487,13 @@ func c02GenScenario(r *core.Run) *c02Scenario {
 	st := tape.New(t.Uint64())
 	_ = start
 	tmp := reflect.New(rt)
-	if st.Chance(2, 3) {
+	if _, ok := tmp.Interface().(*C02Emb); ok {
+		if st.Chance(2, 3) {
+			st.Intn(100)
+			st.Bool()
+			st.Intn(10)
+		}
+	} else if st.Chance(2, 3) {
 		(&gen.Values{T: st, C: gen.JSON, MaxMap: 3, MaxLen: 4}).Fill(tmp.Elem())
 		seedIfacePointers(st, tmp.Elem(), 0)
 	}
@@ -473,6 +508,26 @@ func c02GenScenario(r *core.Run) *c02Scenario {
 		b, err := stdjson.Marshal(v.Interface())
 		if err != nil {
 			b = []byte("{}")
+		}
+		if name == "C02Emb" {
+			// name the fields promoted from the embedded pointers (a fresh value
+			// has nil pointers there, so its own encoding never mentions them)
+			m := map[string]any{}
+			for _, k := range []string{"IA", "ib", "X", "C", "D"} {
+				if t.Bool() {
+					switch k {
+					case "ib":
+						m[k] = vg.String()
+					case "D":
+						m[k] = []byte(vg.String())
+					case "C":
+						m[k] = 2.5
+					default:
+						m[k] = t.Intn(1000)
+					}
+				}
+			}
+			b, _ = stdjson.Marshal(m)
 		}
 		root := jparse(b)
 		root, kinds := jmutate(t, root)
